@@ -155,6 +155,13 @@ func init() {
 			}
 			return symSlotsStr{append([]value(nil), xs...)}
 		},
+		"Quiesce": func(caller *frame, fn *ssa.Function, args []value) value {
+			caller.i.quiesce()
+			return nil
+		},
+		"Alive": func(caller *frame, fn *ssa.Function, args []value) value {
+			return caller.i.alive()
+		},
 		"Freeze": func(caller *frame, fn *ssa.Function, args []value) value {
 			caller.i.freeze(args[0])
 			return nil
